@@ -19,6 +19,9 @@ from twisted.internet.error import ConnectionDone  # noqa: E402
 from twisted.python.failure import Failure  # noqa: E402
 
 PROPERTY = 'C05'
+# RFC 1928 section 6 reply codes -> the error a caller catches (names of the public classes in txtorcon.socks)
+RFC1928_ERRORS = {1: 'GeneralServerFailureError', 2: 'ConnectionNotAllowedError', 3: 'NetworkUnreachableError', 4: 'HostUnreachableError',
+                  5: 'ConnectionRefusedError', 6: 'TtlExpiredError', 7: 'CommandNotSupportedError', 8: 'AddressTypeNotSupportedError'}
 ASSUMPTIONS = [
     "name 'struct' inside txtorcon.socks replaced by the validated pure-Python shim (see C06)",
     'SOCKS transport = list-recording double; application protocol/factory = recording doubles',
@@ -215,6 +218,9 @@ def _run(req_type, stream, cuts, disc_after):
                 rep = info
                 if e.code != rep:
                     return R('error-code-not-preserved', 'reply code %d, error %r code %r', rep, e, e.code)
+                want_cls = RFC1928_ERRORS.get(rep)
+                if want_cls is not None and type(e).__name__ != want_cls:
+                    return R('error-does-not-correspond-to-the-reply-code', 'reply code %d: %s expected, got %r', rep, want_cls, e)
                 if 1 <= rep <= 8 and type(e) is not socks._socks_errors[rep]:
                     return R('wrong-error-class', 'reply code %d -> %r', rep, type(e))
         else:
